@@ -1375,12 +1375,20 @@ func (x *Exec) specCall(env *SpecEnv, n *ECall) TV {
 		return TV{rec.args[i], rec.sig.Params().At(i - off).Type()}
 	case "sent":
 		s := nameArg(n.Args[0])
+		res := TFalse
+		var keys []string
 		for k := range st.ghost {
+			keys = append(keys, k)
+		}
+		sort.Strings(keys)
+		for _, k := range keys {
 			if strings.HasPrefix(k, "$sent:") && matchTarget(s, k[6:]) {
-				return mkSpecBool(TTrue)
+				if t, ok := st.ghost[k].(*Term); ok {
+					res = Or(res, t)
+				}
 			}
 		}
-		return mkSpecBool(TFalse)
+		return mkSpecBool(res)
 	case "implements": // implements(ifaceValue, "interface type"): the comma-ok assertion to that interface succeeds
 		a := arg(0)
 		iv, ok := a.V.(*IfaceV)
